@@ -52,6 +52,12 @@ fn hist_mode(args: &Args, property: &str) -> Report {
     let mut rep = Report::new(property, &format!("history[{}]", cfg.monitors.join(",")), seed, HIST_RULE);
     let histories = args.u64("histories", 3);
     let mut rng = Rng::new(seed);
+    if property == "C01" && !args.flag("big") {
+        let dir = scratch.join("matrix");
+        let _ = std::fs::create_dir_all(&dir);
+        hist::second_op_matrix(&mut rep, &dir, rng.fork(), &cfg);
+        let _ = std::fs::remove_dir_all(&dir);
+    }
     for h in 0..histories {
         let dir = scratch.join(format!("h{h}"));
         let _ = std::fs::create_dir_all(&dir);
